@@ -56,6 +56,20 @@ type c01Bind3 struct {
 	queue        string
 }
 
+// c01Opt3: dimensions of the whole hook.
+type c01Opt3 struct {
+	// v0: a legacy hook (its --config output has no configVersion key): `onKubernetesEvent` bindings loaded
+	// by the real loader. Its Synchronization step is a task that runs no hook; afterwards every change
+	// must reach the hook as an Event in the v0 shape (resourceEvent / resourceName).
+	v0 bool
+	// lateNs: every binding selects its namespaces by namespace.labelSelector and NO namespace matches
+	// at start (zero informers); the first matching namespace appears, with objects, while the first
+	// hook execution is held.
+	lateNs bool
+	// the first `fail` executions that carry a Synchronization (and no allowFailure binding) exit 1
+	fail int
+}
+
 type c01Ctx3 struct {
 	binding, typ, group string
 	view                map[int]int            // Synchronization: objects
@@ -111,6 +125,14 @@ func c01ReadExecs3(logDir string) []c01Exec3 {
 			c3.binding, _ = cx["binding"].(string)
 			c3.typ, _ = cx["type"].(string)
 			c3.group, _ = cx["groupName"].(string)
+			if re, ok := cx["resourceEvent"].(string); ok && c3.typ == "" {
+				// v0 shape: {binding, resourceEvent, resourceNamespace, resourceKind, resourceName}
+				c3.typ = "Event"
+				name, _ := cx["resourceName"].(string)
+				if id, err := strconv.Atoi(strings.TrimPrefix(name, "o")); err == nil {
+					c3.ev = &c01Ev{id, map[string]string{"add": "a", "update": "m", "delete": "d"}[re], 0}
+				}
+			}
 			switch c3.typ {
 			case "Synchronization":
 				objs, _ := cx["objects"].([]interface{})
@@ -137,40 +159,73 @@ func c01ReadExecs3(logDir string) []c01Exec3 {
 	return res
 }
 
-func c01OpRun3(c *Case, rng *Rng, binds []c01Bind3, failBudget int, x0 []c01Ev, inject [][]c01Ev, after []c01Ev, scratch string) {
+func c01OpRun3(c *Case, rng *Rng, binds []c01Bind3, opt c01Opt3, x0 []c01Ev, inject [][]c01Ev, after []c01Ev, scratch string) {
 	ns := fmt.Sprintf("c01op3-%d", c.Idx)
 	base := filepath.Join(scratch, ns)
 	hooksDir, logDir, tmpDir := filepath.Join(base, "hooks"), filepath.Join(base, "log"), filepath.Join(base, "tmp")
 	for _, d := range []string{hooksDir, logDir, tmpDir} {
 		_ = os.MkdirAll(d, 0o755)
 	}
-	conf := "configVersion: v1\nkubernetes:\n"
 	byName := map[string]c01Bind3{}
-	for _, b := range binds {
-		byName[b.name] = b
-		conf += "- name: " + b.name + "\n  apiVersion: v1\n  kind: ConfigMap\n  namespace:\n    nameSelector:\n      matchNames: [\"" + ns + "\"]\n"
-		if b.group != "" {
-			conf += "  group: " + b.group + "\n"
+	var conf string
+	if opt.v0 {
+		// legacy format: no configVersion key; the real loader (config_v0.go) turns it into ModeV0 monitors
+		var items []string
+		for _, b := range binds {
+			byName[b.name] = b
+			it := fmt.Sprintf(`{"name":%q,"kind":"ConfigMap","event":["add","update","delete"],"namespaceSelector":{"matchNames":[%q]}`, b.name, ns)
+			if b.allowFailure {
+				it += `,"allowFailure":true`
+			}
+			items = append(items, it+"}")
 		}
-		if b.allowFailure {
-			conf += "  allowFailure: true\n"
+		conf = `{"onKubernetesEvent":[` + strings.Join(items, ",") + `]}`
+	} else {
+		conf = "configVersion: v1\nkubernetes:\n"
+		nsSel := "  namespace:\n    nameSelector:\n      matchNames: [\"" + ns + "\"]\n"
+		if opt.lateNs {
+			nsSel = "  namespace:\n    labelSelector:\n      matchLabels:\n        c01op3: \"yes\"\n"
 		}
-		if !b.execOnSync {
-			conf += "  executeHookOnSynchronization: false\n"
-		}
-		if b.queue != "" {
-			conf += "  queue: " + b.queue + "\n"
+		for _, b := range binds {
+			byName[b.name] = b
+			conf += "- name: " + b.name + "\n  apiVersion: v1\n  kind: ConfigMap\n" + nsSel
+			if b.group != "" {
+				conf += "  group: " + b.group + "\n"
+			}
+			if b.allowFailure {
+				conf += "  allowFailure: true\n"
+			}
+			if !b.execOnSync {
+				conf += "  executeHookOnSynchronization: false\n"
+			}
+			if b.queue != "" {
+				conf += "  queue: " + b.queue + "\n"
+			}
 		}
 	}
 	_ = os.WriteFile(filepath.Join(hooksDir, "config.yaml"), []byte(conf), 0o644)
-	_ = os.WriteFile(filepath.Join(hooksDir, "hook.sh"), []byte(fmt.Sprintf(c01HookScript3, logDir)), 0o755)
+	_ = writeScript(filepath.Join(hooksDir, "hook.sh"), []byte(fmt.Sprintf(c01HookScript3, logDir)), 0o755)
 	_ = os.WriteFile(filepath.Join(logDir, "hold-all"), nil, 0o644)
 	fc := fake.NewFakeCluster(fake.ClusterVersionV121)
-	nsObj := &corev1.Namespace{}
-	nsObj.SetName(ns)
-	_, _ = fc.Client.CoreV1().Namespaces().Create(context.TODO(), nsObj, metav1.CreateOptions{})
+	nsThere := false
+	ensureNs := func() {
+		if nsThere {
+			return
+		}
+		nsThere = true
+		nsObj := &corev1.Namespace{}
+		nsObj.SetName(ns)
+		nsObj.SetLabels(map[string]string{"c01op3": "yes"})
+		_, _ = fc.Client.CoreV1().Namespaces().Create(context.TODO(), nsObj, metav1.CreateOptions{})
+	}
+	if !opt.lateNs {
+		ensureNs()
+	}
 	truth := map[int]int{}
 	apply := func(es []c01Ev) bool {
+		if len(es) > 0 {
+			ensureNs() // lateNs: the first matching namespace appears together with its first objects
+		}
 		for _, e := range es {
 			if err := c01OpObj(fc, ns, e); err != nil {
 				c.Inconcl = "cluster operation failed: " + err.Error()
@@ -184,7 +239,7 @@ func c01OpRun3(c *Case, rng *Rng, binds []c01Bind3, failBudget int, x0 []c01Ev, 
 		}
 		return true
 	}
-	if !apply(x0) {
+	if !opt.lateNs && !apply(x0) {
 		return
 	}
 	ctx, cancel := context.WithCancel(context.Background())
@@ -199,21 +254,36 @@ func c01OpRun3(c *Case, rng *Rng, binds []c01Bind3, failBudget int, x0 []c01Ev, 
 		c.Inconcl = "hook not loaded"
 		return
 	}
+	if want := map[bool]string{true: "v0", false: "v1"}[opt.v0]; hk.GetConfig().Version != want {
+		c.Inconcl = "hook config loaded as version " + hk.GetConfig().Version
+		return
+	}
 	monOf := map[string]string{}
 	for _, kb := range hk.GetConfig().OnKubernetesEvents {
 		monOf[kb.BindingName] = kb.Monitor.Metadata.MonitorId
 	}
-	enabled := func(name string) bool {
+	// state: does SOME informer of the binding pass events on (anyEn); is the whole binding unlocked —
+	// eventsEnabled set and every informer it has, static and per namespace, enabled (allEn); how many
+	// events sit in the buffers of its informers
+	state := func(name string) (anyEn, allEn bool, buf int) {
 		mon := op.KubeEventsManager.GetMonitor(monOf[name])
 		if mon == nil {
-			return false
+			return false, false, 0
 		}
-		_, statics, _, _ := kem.VerifMonitorState(mon)
-		all := len(statics) > 0
+		flag, statics, varying, buffered := kem.VerifMonitorState(mon)
+		allEn = flag
 		for _, en := range statics {
-			all = all && en
+			anyEn, allEn = anyEn || en, allEn && en
 		}
-		return all
+		for _, l := range varying {
+			for _, en := range l {
+				anyEn, allEn = anyEn || en, allEn && en
+			}
+		}
+		for _, n := range buffered {
+			buf += n
+		}
+		return anyEn, allEn, buf
 	}
 	op.VerifStart()
 	released := map[string]bool{}
@@ -233,22 +303,53 @@ func c01OpRun3(c *Case, rng *Rng, binds []c01Bind3, failBudget int, x0 []c01Ev, 
 		}
 		time.Sleep(20 * time.Millisecond)
 	}()
-	// syncOk: a successful execution that carried the Synchronization of this binding has FINISHED
-	syncOk := func(execs []c01Exec3, b c01Bind3) bool {
-		for _, e := range execs {
-			if e.exit != 0 {
-				continue
+	// carries: this execution carries the Synchronization of binding b
+	carries := func(e c01Exec3, b c01Bind3) bool {
+		for _, cx := range e.ctxs {
+			if b.group == "" && cx.typ == "Synchronization" && cx.binding == b.name {
+				return true
 			}
-			for _, cx := range e.ctxs {
-				if b.group == "" && cx.typ == "Synchronization" && cx.binding == b.name {
-					return true
-				}
-				if b.group != "" && cx.typ == "Group" && cx.group == b.group {
-					return true
-				}
+			if b.group != "" && cx.typ == "Group" && cx.group == b.group {
+				return true
 			}
 		}
 		return false
+	}
+	// syncOk: a successful execution that carried the Synchronization of this binding has FINISHED
+	syncOk := func(execs []c01Exec3, b c01Bind3) bool {
+		for _, e := range execs {
+			if e.exit == 0 && carries(e, b) {
+				return true
+			}
+		}
+		return false
+	}
+	// hookRunsSync: the Synchronization step of this binding is an execution of the hook
+	hookRunsSync := func(b c01Bind3) bool { return b.execOnSync && !opt.v0 }
+	lockNow := func() string {
+		// lock state first, then the finished runs: a binding is unlocked only after the run that carried
+		// its Synchronization has exited
+		var ens []bool
+		for _, b := range binds {
+			en, _, _ := state(b.name)
+			ens = append(ens, en)
+		}
+		execs := c01ReadExecs3(logDir)
+		var obs []string
+		for i, b := range binds {
+			if !hookRunsSync(b) {
+				continue // its Synchronization step is not a hook run: nothing to compare with
+			}
+			en, ok := 0, 0
+			if ens[i] {
+				en = 1
+			}
+			if syncOk(execs, b) {
+				ok = 1
+			}
+			obs = append(obs, fmt.Sprintf("%s:%d:%d", b.name, en, ok))
+		}
+		return strings.Join(obs, ",")
 	}
 	var lockObs []string
 	queues := []string{"main"}
@@ -257,6 +358,12 @@ func c01OpRun3(c *Case, rng *Rng, binds []c01Bind3, failBudget int, x0 []c01Ev, 
 			queues = append(queues, b.queue)
 		}
 	}
+	mainIdle := func() bool {
+		q := op.TaskQueues.GetByName("main")
+		return q != nil && q.Length() == 0
+	}
+	failBudget := opt.fail
+	stuck := map[string]bool{} // Synchronization step done, task gone from the queue, binding still locked
 	injected := 0
 	deadline := time.Now().Add(50 * time.Second)
 	idle := 0
@@ -274,17 +381,37 @@ func c01OpRun3(c *Case, rng *Rng, binds []c01Bind3, failBudget int, x0 []c01Ev, 
 			}
 		}
 		if held == nil {
-			allUnlocked := true
-			for _, b := range binds {
-				allUnlocked = allUnlocked && enabled(b.name)
-			}
 			running := false
 			for _, e := range execs {
 				running = running || e.exit < 0
 			}
-			if allUnlocked && !running {
+			allSync := true
+			for _, b := range binds {
+				if hookRunsSync(b) {
+					allSync = allSync && syncOk(execs, b)
+				}
+			}
+			// The order of the two reads matters. Every Synchronization task of the hook sits in "main" from
+			// the moment the bindings are enabled (one queue operation replaces the EnableKubernetesBindings
+			// task by them) until its handler has returned Success, and the handler unlocks before it
+			// returns: "main" empty => every Synchronization step is over, unlock calls included.
+			idleQ := mainIdle()
+			allUnlocked := true
+			for _, b := range binds {
+				_, all, _ := state(b.name)
+				allUnlocked = allUnlocked && all
+			}
+			if !running && allSync && idleQ {
 				idle++
 				if idle > 10 {
+					if !allUnlocked {
+						// decided without a clock: nothing is left that could unlock these bindings
+						for _, b := range binds {
+							if _, all, _ := state(b.name); !all {
+								stuck[b.name] = true
+							}
+						}
+					}
 					break
 				}
 			} else {
@@ -294,40 +421,45 @@ func c01OpRun3(c *Case, rng *Rng, binds []c01Bind3, failBudget int, x0 []c01Ev, 
 			continue
 		}
 		idle = 0
-		// an execution is held: what is unlocked right now? (lock state first, then the finished runs:
-		// a binding is unlocked only after the run that carried its Synchronization has exited)
-		var obs []string
-		var ens []bool
-		for _, b := range binds {
-			ens = append(ens, enabled(b.name))
+		// an execution is held: what is unlocked right now?
+		if o := lockNow(); o != "" {
+			lockObs = append(lockObs, o)
 		}
-		execs = c01ReadExecs3(logDir)
-		for i, b := range binds {
-			if !b.execOnSync {
-				continue // its Synchronization step is not a hook run: nothing to observe
-			}
-			en, ok := 0, 0
-			if ens[i] {
-				en = 1
-			}
-			if syncOk(execs, b) {
-				ok = 1
-			}
-			obs = append(obs, fmt.Sprintf("%s:%d:%d", b.name, en, ok))
-		}
-		lockObs = append(lockObs, strings.Join(obs, ","))
 		if injected < len(inject) {
+			before := map[string]int{}
+			for _, b := range binds {
+				_, _, before[b.name] = state(b.name)
+			}
+			nExecs := len(c01ReadExecs3(logDir))
 			if !apply(inject[injected]) {
 				return
 			}
+			k := len(inject[injected])
 			injected++
+			// let the change sink in: every still-locked binding has it in a buffer (for lateNs: the namespace
+			// callback has created the informers and they have listed the objects), or something new was
+			// handed to the hook; no verdict depends on this wait
+			for dl := time.Now().Add(1500 * time.Millisecond); time.Now().Before(dl); time.Sleep(3 * time.Millisecond) {
+				sunk := true
+				for _, b := range binds {
+					if en, _, buf := state(b.name); !en && buf < before[b.name]+k {
+						sunk = false
+					}
+				}
+				if sunk || len(c01ReadExecs3(logDir)) > nExecs {
+					break
+				}
+			}
 			time.Sleep(time.Duration(rng.Range(40, 120)) * time.Millisecond)
+			if o := lockNow(); o != "" {
+				lockObs = append(lockObs, o)
+			}
 		}
 		code := "0"
 		if failBudget > 0 {
 			can := false
-			for _, cx := range held.ctxs {
-				if cx.typ == "Synchronization" || cx.typ == "Group" {
+			for _, b := range binds {
+				if hookRunsSync(b) && !syncOk(execs, b) && carries(*held, b) {
 					can = true
 				}
 			}
@@ -339,11 +471,29 @@ func c01OpRun3(c *Case, rng *Rng, binds []c01Bind3, failBudget int, x0 []c01Ev, 
 			if can {
 				code = "1"
 				failBudget--
+				c.Note("op3:synchronization-run-failed")
+				if len(held.ctxs) > 1 {
+					c.Note("op3:combined-synchronization-run-failed")
+				}
 			}
 		}
 		release(held.id, code)
 	}
 	_ = os.Remove(filepath.Join(logDir, "hold-all"))
+	// the verdict on the unlock: every Synchronization step is over (see above)
+	var unlockObs []string
+	for _, b := range binds {
+		u := 1
+		if stuck[b.name] {
+			u = 0
+			c.Note("op3:binding-never-unlocked")
+		}
+		unlockObs = append(unlockObs, fmt.Sprintf("%s:%d", b.name, u))
+	}
+	baseline := map[int]int{} // v0: what existed when the (hook-less) Synchronization step was over
+	for id := range truth {
+		baseline[id] = 0
+	}
 	for ; injected < len(inject); injected++ {
 		if !apply(inject[injected]) {
 			return
@@ -352,7 +502,8 @@ func c01OpRun3(c *Case, rng *Rng, binds []c01Bind3, failBudget int, x0 []c01Ev, 
 	if !apply(after) || !apply([]c01Ev{{99, "a", 999}}) {
 		return
 	}
-	// rest: every binding has shown the sentinel object to the hook, queues empty, nothing running
+	// rest: every binding has shown the sentinel object to the hook (a binding that stayed locked: has it
+	// in a buffer that nothing will ever replay), queues empty, nothing running
 	var execs []c01Exec3
 	stable := 0
 	deadline = time.Now().Add(60 * time.Second)
@@ -391,11 +542,18 @@ func c01OpRun3(c *Case, rng *Rng, binds []c01Bind3, failBudget int, x0 []c01Ev, 
 		}
 		all := true
 		for _, b := range binds {
-			all = all && seen[b.name]
+			if seen[b.name] {
+				continue
+			}
+			if _, allEn, buf := state(b.name); stuck[b.name] && !allEn && buf > 0 {
+				continue
+			}
+			all = false
 		}
-		if !done || busy || !all || len(ex) != len(execs) {
+		changed := len(ex) != len(execs)
+		execs = ex // always the latest reading: exit codes and end times of runs that were still going on
+		if !done || busy || !all || changed {
 			stable = 0
-			execs = ex
 			continue
 		}
 		stable++
@@ -407,7 +565,26 @@ func c01OpRun3(c *Case, rng *Rng, binds []c01Bind3, failBudget int, x0 []c01Ev, 
 	for _, o := range lockObs {
 		c.Oracle("op-lock held=" + o)
 	}
+	c.Oracle("op-unlock synchronization-steps-over=1 unlocked=" + strings.Join(unlockObs, ","))
 	for _, b := range binds {
+		if opt.v0 {
+			// v0: no view was ever given; the hook is told names only. Every change made after the
+			// Synchronization step was over must arrive, in order: baseline + Events = cluster (existence)
+			var delivered []c01Ev
+			for _, e := range execs {
+				for _, cx := range e.ctxs {
+					if cx.binding == b.name && cx.ev != nil {
+						delivered = append(delivered, *cx.ev)
+					}
+				}
+			}
+			final := map[int]int{}
+			for id := range truth {
+				final[id] = 0
+			}
+			c.Oracle(fmt.Sprintf("replay binding=%s view=%s delivered=%s final=%s", b.name, c01StateStr(baseline), c01Evs(delivered), c01StateStr(final)))
+			continue
+		}
 		if !b.execOnSync {
 			continue
 		}
@@ -496,25 +673,27 @@ func c01GenLayout3(rng *Rng, shape int) []c01Bind3 {
 	var binds []c01Bind3
 	type blk struct {
 		grouped, allow, exec bool
+		shared               bool // the block's group is the one group "gs" that other blocks may use too; 1-2 bindings
 	}
 	var blocks []blk
 	switch shape {
 	case 0: // group, then a binding at which combining stops: different allowFailure
-		blocks = []blk{{true, false, true}, {false, true, true}}
+		blocks = []blk{{true, false, true, false}, {false, true, true, false}}
 	case 1: // the other way round
-		blocks = []blk{{true, true, true}, {false, false, true}}
+		blocks = []blk{{true, true, true, false}, {false, false, true, false}}
 	case 2: // group, then a binding that is combined with it
-		blocks = []blk{{true, false, true}, {false, false, true}}
+		blocks = []blk{{true, false, true, false}, {false, false, true, false}}
 	case 3: // group, then a binding whose Synchronization is not executed, then another one
-		blocks = []blk{{true, false, true}, {false, false, false}, {false, false, true}}
+		blocks = []blk{{true, false, true, false}, {false, false, false, false}, {false, false, true, false}}
 	case 4: // single, group, single with different allowFailure
-		blocks = []blk{{false, false, true}, {true, false, true}, {false, true, true}}
+		blocks = []blk{{false, false, true, false}, {true, false, true, false}, {false, true, true, false}}
 	case 5: // two groups with different allowFailure
-		blocks = []blk{{true, false, true}, {true, true, true}}
+		blocks = []blk{{true, false, true, false}, {true, true, true, false}}
 	default:
 		n := rng.Range(2, 3)
 		for i := 0; i < n; i++ {
-			blocks = append(blocks, blk{rng.Chance(55), rng.Chance(35), !rng.Chance(15)})
+			grouped := rng.Chance(55)
+			blocks = append(blocks, blk{grouped, rng.Chance(35), !rng.Chance(15), grouped && rng.Chance(35)})
 		}
 	}
 	for i, bl := range blocks {
@@ -523,6 +702,10 @@ func c01GenLayout3(rng *Rng, shape int) []c01Bind3 {
 		if bl.grouped {
 			size = 2
 			group = fmt.Sprintf("g%d", i)
+		}
+		if bl.shared {
+			size = rng.Range(1, 2)
+			group = "gs"
 		}
 		for j := 0; j < size; j++ {
 			b := c01Bind3{name: fmt.Sprintf("b%d%d", i, j), group: group, allowFailure: bl.allow, execOnSync: bl.exec}
@@ -535,27 +718,106 @@ func c01GenLayout3(rng *Rng, shape int) []c01Bind3 {
 	return binds
 }
 
+// c01FixedShapes3: the first cases of the suite are fixed layouts (0..5: see c01GenLayout3) and fixed
+// hook-level dimensions:
+//
+//	6  group + combinable single binding, the combined Synchronization run fails once, then succeeds
+//	7  two groups (one run, two contexts), fails twice
+//	8  legacy v0 hook, one binding        9  legacy v0 hook, two bindings (one allowFailure)
+//	10 namespace.labelSelector, no namespace at start, single binding with its own queue
+//	11 the same with a group + a single binding, own queues, first run fails
+//	12 two bindings of one group, the first with executeHookOnSynchronization: false; two failing runs
+const c01FixedShapes3 = 13
+
 func runC01Operator3(r *Run) {
-	n := r.N(6+6, 6+100)
+	n := r.N(c01FixedShapes3+8, c01FixedShapes3+120)
 	r.Cases(850000, n, 6, func(c *Case, rng *Rng) {
-		binds := c01GenLayout3(rng, c.Idx-850000)
+		shape := c.Idx - 850000
+		var opt c01Opt3
+		var binds []c01Bind3
+		opt.fail = []int{0, 0, 1, 2}[rng.Intn(4)]
+		switch shape {
+		case 6:
+			binds, opt.fail = c01GenLayout3(rng, 2), 1
+			for i := range binds {
+				binds[i].queue = ""
+			}
+		case 7:
+			binds, opt.fail = c01GenLayout3(rng, 5), 2
+			for i := range binds {
+				binds[i].allowFailure = false
+			}
+		case 8:
+			opt.v0 = true
+			binds = []c01Bind3{{name: "b00", execOnSync: true}}
+		case 9:
+			opt.v0 = true
+			binds = []c01Bind3{{name: "b00", execOnSync: true}, {name: "b10", execOnSync: true, allowFailure: true}}
+		case 10:
+			opt.lateNs, opt.fail = true, 0
+			binds = []c01Bind3{{name: "b00", execOnSync: true, queue: "q00"}}
+		case 11:
+			opt.lateNs, opt.fail = true, 1
+			binds = c01GenLayout3(rng, 2)
+			for i := range binds {
+				binds[i].queue = "q" + binds[i].name[1:]
+			}
+		case 12:
+			// a binding whose Synchronization is not executed (unlocked at once) shares its group with a
+			// binding whose Synchronization run fails twice: Events of the first one queue up behind it
+			opt.fail = 2
+			binds = []c01Bind3{{name: "b00", group: "gs", execOnSync: false}, {name: "b10", group: "gs", execOnSync: true}}
+		default:
+			lay := shape
+			if shape >= c01FixedShapes3 {
+				lay = 100
+				switch {
+				case rng.Chance(15):
+					opt.v0 = true
+				case rng.Chance(30):
+					opt.lateNs = true
+				}
+			}
+			binds = c01GenLayout3(rng, lay)
+			if opt.v0 {
+				// the v0 format knows neither group nor queue nor executeHookOnSynchronization
+				for i := range binds {
+					binds[i].group, binds[i].queue, binds[i].execOnSync = "", "", true
+				}
+			}
+		}
 		live := map[int]int{}
 		next := 10
-		x0 := c01GenClusterOps(rng, live, &next, rng.Range(0, 2))
+		var x0 []c01Ev
+		if !opt.lateNs {
+			x0 = c01GenClusterOps(rng, live, &next, rng.Range(0, 2))
+		}
 		var inject [][]c01Ev
 		for i := 0; i < 3; i++ {
 			inject = append(inject, c01GenClusterOps(rng, live, &next, rng.Range(1, 2)))
 		}
 		after := c01GenClusterOps(rng, live, &next, rng.Range(0, 2))
-		fail := []int{0, 0, 1}[rng.Intn(3)]
 		var ds []string
 		for _, b := range binds {
 			ds = append(ds, fmt.Sprintf("%s(group=%q allowFailure=%v execOnSync=%v queue=%q)", b.name, b.group, b.allowFailure, b.execOnSync, b.queue))
 		}
-		c.Desc = fmt.Sprintf("operator, bindings of one hook: %s; before=%s while-runs-are-held=%v after=%s failing-synchronizations=%d",
-			strings.Join(ds, " "), c01Evs(x0), inject, c01Evs(after), fail)
-		c01OpRun3(c, rng, binds, fail, x0, inject, after, r.Scratch)
+		kind := "configVersion v1"
+		if opt.v0 {
+			kind = "legacy v0 config (onKubernetesEvent)"
+		}
+		if opt.lateNs {
+			kind += ", namespace.labelSelector with NO matching namespace at start (it appears with the first change)"
+		}
+		c.Desc = fmt.Sprintf("operator, %s, bindings of one hook: %s; before=%s while-runs-are-held=%v after=%s failing-synchronizations=%d",
+			kind, strings.Join(ds, " "), c01Evs(x0), inject, c01Evs(after), opt.fail)
+		c01OpRun3(c, rng, binds, opt, x0, inject, after, r.Scratch)
 		c.Nontrivial = true
 		c.Note("operator-layout")
+		if opt.v0 {
+			c.Note("operator-layout:v0-hook")
+		}
+		if opt.lateNs {
+			c.Note("operator-layout:no-namespace-at-start")
+		}
 	})
 }
